@@ -213,11 +213,14 @@ func ownEncodeRules(c *core.Ctx, a *aliasAnalysis, rule string) {
 			if sum.results[i].pooled {
 				bad = append(bad, fmt.Sprintf("result %d ([]byte) may share memory with a pooled buffer that is handed to the next user after Put", i))
 			}
+			if sum.results[i].global {
+				bad = append(bad, fmt.Sprintf("result %d ([]byte) may share memory with a package-level slice: every caller receives the same octets, and a write by one of them (or by the library) changes what the others hold", i))
+			}
 		}
 		if !relevant {
 			continue
 		}
-		c.Decide(len(bad) == 0, rule, funcKey(fn), c.Prog.Pos(fn.Pos()), "byte results are not views of pooled storage", strings.Join(bad, "; "))
+		c.Decide(len(bad) == 0, rule, funcKey(fn), c.Prog.Pos(fn.Pos()), "byte results are views neither of pooled storage nor of package-level slices", strings.Join(bad, "; "))
 	}
 	// fields that ever hold pooled objects
 	allowed := map[string]bool{"packet.Writer.buf": true, "packet.PDUStringer.buf": true}
